@@ -24,7 +24,7 @@ COMPONENTS_STUB = ["UDP socket (SimSocket)", "name resolution", "module random o
 ASSUMPTIONS = ["the socket model (recvmsg/sendmsg/pktinfo) is faithful to Linux",
                "call_soon FIFO order of asyncio is kept; timers and arrivals at the same instant are processed arrivals first",
                "time comparisons use a tolerance of 1e-9 s"]
-EXPECTED_PROBES = ["giveup", "ack_tie", "ack_pre_eps", "ack_post_eps", "rst", "wrong_mid", "wrong_src",
+EXPECTED_PROBES = ["mid_collision_with_peer_message", "giveup", "ack_tie", "ack_pre_eps", "ack_post_eps", "rst", "wrong_mid", "wrong_src",
                    "server_con", "mr0", "late_ack"]
 
 KINDS = ["ack", "rst", "piggy", "wrongmid_ack", "wrongmid_rst", "wrongsrc_ack", "wrongsrc_rst", "wrongport_ack"]
@@ -82,6 +82,9 @@ def gen(r, tier):
             "blockwise": r.chance(0.3),
             "script": gen_script(r, mr, allow_piggy=(kind == "request")),
             "eps": r.choice([1e-6, 1e-3]),
+            # the two directions number their messages independently: the peer may have used, for a message of its
+            # own, the very ID our next message will get
+            "collide": r.choice([None, None, "non", "con"]) if kind == "request" else None,
         })
     net = faults.swarm(r, kinds=("drop", "dup", "delay"))
     return {"msgs": msgs, "net": net, "stall": (r.chance(0.15))}
@@ -305,6 +308,22 @@ def execute(sim, scn):
         tv = common.tuning_values(m["tuning"])
         if tv["MAX_RETRANSMIT"] == 0:
             sim.probe("mr0")
+        if m["kind"] == "request" and m.get("collide"):
+            def collide(m=m, peer=peer):
+                # predicted ID of the client's next new message: its counter starts at the recorded draw and advances
+                # by one per new message (replies reuse the peer's IDs)
+                client_addr = sim.local_addr(client)
+                used = {e["msg"]["mid"] for e in sim.net.wire if e["src"] == client_addr and e["msg"] is not None
+                        and e["msg"]["type"] in (rc.CON, rc.NON)}
+                init = [d for d in sim.draws["mm"].log if d[0] == "randint"][-1][3]
+                nxt = init
+                while nxt in used:
+                    nxt = (nxt + 1) & 0xFFFF
+                typ = rc.NON if m["collide"] == "non" else rc.CON
+                sim.probe("mid_collision_with_peer_message")
+                peer.send(client_addr, msg={"type": typ, "code": rc.CONTENT, "mid": nxt, "token": b"\xee\x01",
+                                            "options": [], "payload": b"unrelated"}, fate=["deliver", 0.001])
+            loop.at(max(0.0, m["t"] - 0.01), collide)
         if m["kind"] == "request":
             def start(m=m, ip=ip):
                 msg = Message(code=GET, uri="coap://[%s]/x%d" % (ip, m["id"]),
